@@ -9,6 +9,7 @@ import (
 	"math/big"
 	"os"
 	"sort"
+	"strconv"
 	"strings"
 
 	"golang.org/x/tools/go/packages"
@@ -22,6 +23,8 @@ type Oblig struct {
 	desc   string
 	pos    string
 	disj   []*Term
+	negs   []*Term // per entry of disj: the negated goal conjunct (nil if unknown)
+	raw    []*Term // disj before quantifier instantiation
 	paths  int
 	props  []string
 	clause string
@@ -263,6 +266,10 @@ func (x *Exec) oblige(st *State, name, kind, desc string, pos token.Pos, goal *T
 		return
 	}
 	o.disj = append(o.disj, f)
+	for len(o.negs) < len(o.disj)-1 {
+		o.negs = append(o.negs, nil)
+	}
+	o.negs = append(o.negs, Not(goal))
 }
 
 func (x *Exec) safe(st *State, fr *Frame, kind string, pos token.Pos, goal *Term) {
@@ -431,7 +438,15 @@ func loopAt(fn *ssa.Function, b *ssa.BasicBlock) *loopInfo {
 // localResolver resolves source-level variable names at a loop header.
 func (x *Exec) localResolver(st *State, fr *Frame, at *ssa.BasicBlock) func(string) (SV, bool) {
 	return func(name string) (SV, bool) {
-		// phis in the header, then in dominating blocks (nearest first)
+		// phis in the header, then in dominating blocks (nearest first); a suffix __N skips the N nearest
+		// matches (the same-named variable of the N-th enclosing loop)
+		skip := 0
+		if i := strings.LastIndex(name, "__"); i > 0 {
+			if n, err := strconv.Atoi(name[i+2:]); err == nil {
+				skip = n
+				name = name[:i]
+			}
+		}
 		for b := at; b != nil; b = b.Idom() {
 			for _, ins := range b.Instrs {
 				ph, ok := ins.(*ssa.Phi)
@@ -440,6 +455,10 @@ func (x *Exec) localResolver(st *State, fr *Frame, at *ssa.BasicBlock) func(stri
 				}
 				if ph.Comment == name || strings.ReplaceAll(ph.Comment, ".", "_") == name {
 					if v, ok := fr.vals[ph]; ok {
+						if skip > 0 {
+							skip--
+							continue
+						}
 						return v, true
 					}
 				}
@@ -593,9 +612,27 @@ func (x *Exec) VerifyFunc(fn *ssa.Function, c *FuncContract) (err error) {
 				next = append(next, s1)
 			}
 		}
-		st.entry = st
-		x.oblige(st, fmt.Sprintf("split:%s#%d", x.targetName(), si+1), "pre", "case split "+sp.text+" is exhaustive", token.NoPos, Or(alts...))
-		st.entry = nil
+		// exhaustive under the preconditions
+		pst := st.clone()
+		pst.lets = map[string]SV{}
+		pvars := map[string]SV{}
+		for n, v := range vars {
+			pvars[n] = v
+		}
+		penv := &Env{x: x, st: pst, vars: pvars, pkg: fn.Pkg.Pkg}
+		for _, l := range c.lets {
+			if v, e := penv.EvalAny(l.expr, nil); e == nil {
+				pst.lets[l.name] = v
+				pvars[l.name] = v
+			}
+		}
+		for _, r := range c.requires {
+			if t, e := penv.EvalBool(r.expr); e == nil {
+				pst.assume(t)
+			}
+		}
+		pst.entry = pst
+		x.oblige(pst, fmt.Sprintf("split:%s#%d", x.targetName(), si+1), "pre", "case split "+sp.text+" is exhaustive", token.NoPos, Or(alts...))
 		states = next
 	}
 	lets0 := st.lets
@@ -707,6 +744,7 @@ type permitted struct {
 	n     *Term
 	ent   bool
 	idx   *Term
+	cond  *Term
 }
 
 // modLoc is one evaluated modifies designator.
@@ -717,6 +755,7 @@ type modLoc struct {
 	n   *Term
 	ent bool // single entry of a ghost map
 	idx *Term
+	cond *Term // nil or condition (over the pre-state) under which the location may change
 }
 
 func (x *Exec) modTargets(env *Env, c *FuncContract) []permitted {
@@ -730,16 +769,39 @@ func (x *Exec) modTargets(env *Env, c *FuncContract) []permitted {
 		}
 	}
 	for _, m := range c.modifies {
+		cond := x.modCond(env, m)
+		if cond == False {
+			continue
+		}
 		for _, e := range m.exprs {
 			for _, ml := range x.modLocs(env, e) {
 				li := resolveLoc(ml.ptr)
 				for k := li.lo; k < li.hi; k++ {
-					out = append(out, permitted{key: li.key(k), base: ml.ptr.l[0], rng: ml.rng, off: ml.off, n: ml.n, ent: ml.ent, idx: ml.idx})
+					out = append(out, permitted{key: li.key(k), base: ml.ptr.l[0], rng: ml.rng, off: ml.off, n: ml.n, ent: ml.ent, idx: ml.idx, cond: cond})
 				}
 			}
 		}
 	}
 	return out
+}
+
+// modCond evaluates the condition of a conditional modifies clause in the pre-state (nil: unconditional).
+func (x *Exec) modCond(env *Env, m *Clause) *Term {
+	if m.expr == nil {
+		return nil
+	}
+	oe := *env
+	if env.oldSt != nil {
+		oe.st = env.oldSt
+	}
+	t, err := oe.EvalBool(m.expr)
+	if err != nil {
+		panic(abortErr{fmt.Sprintf("%s:%d: modifies %s: %v", m.file, m.line, m.text, err)})
+	}
+	if t == True {
+		return nil
+	}
+	return t
 }
 
 // modLocs evaluates a modifies designator to locations (in the old state).
@@ -866,14 +928,26 @@ func (x *Exec) frameCheck(st *State, fr *Frame, env *Env, c *FuncContract, pos t
 			if p.key != key {
 				continue
 			}
+			var hit *Term
 			if p.ent && isGhostMap {
-				conds = append(conds, Neq(gj, p.idx))
+				hit = Eq(gj, p.idx)
 			} else if p.rng && isBacking {
 				inside := And(BvCmp("bvule", p.off, jj), BvCmp("bvult", jj, BvBin("bvadd", p.off, p.n)))
-				conds = append(conds, Not(And(Eq(r, p.base), inside)))
+				hit = And(Eq(r, p.base), inside)
 			} else {
-				conds = append(conds, Neq(r, p.base))
+				hit = Eq(r, p.base)
 			}
+			if p.cond != nil {
+				hit = And(p.cond, hit)
+			}
+			conds = append(conds, Not(hit))
+		}
+		if os.Getenv("GOWP_FRAME_SPLIT") != "" {
+			defer func(n int, key string) {
+				if len(goals) > n {
+					x.oblige(st, name+":"+regionName(key), "frame", "region "+key+" changes only as permitted", pos, goals[n])
+				}
+			}(len(goals), key)
 		}
 		if isGhostMap {
 			goals = append(goals, Implies(And(conds...), Eq(Select(Select(now, r), gj), Select(Select(init, r), gj))))
